@@ -279,6 +279,8 @@ class Oracles:
                 self.violate("C16", "ingredient-without-pallet", self.nlabel(nr.id), f"{nr.id} took ingredient {iid} from in-edge {ii} without holding a pallet to fill")
             else:
                 nr.pallet["gathered"].append((iid, ii))
+                if len(nr.pallet["gathered"]) == sum(q for i, q in enumerate(nr.spec["recipe"]) if i >= 1):
+                    nr.pallet["complete_t"] = t      # the recipe is complete: processing may start
             nr.last_ing_t = t
             return
         self.loc[iid] = ("node", nr.id)
